@@ -4,6 +4,7 @@
 -/
 import Pongo.Model.Sets
 import Pongo.Gen.BanSites
+import Pongo.Lemmas.ParseAll
 
 namespace Pongo.C03
 
@@ -148,6 +149,30 @@ theorem banned_filter_in_filter_tag_rejected (cfg : SetCfg) (fuel : Nat) (acc : 
   have hb : idTok.val ∈ cfg.bannedFilters := by simpa using hban
   simp [filterTagArgs, PS.remaining, hts, PS.matchType, hid, hb]
 
+/-! ### no route through the expression grammar: the whole accepted tree is free of banned filters
+
+From the parser-wide induction of `Lemmas/ParseAll.lean` (all sixteen functions of the expression
+parser, every fuel): whatever token list an expression is parsed from, and however deep a filter
+call sits in it — in a chain, in the parameter of another filter, in a subscript, in a call
+argument, in an item of a list literal, behind parentheses or operators — its name was written as
+an identifier token, is registered and is *not banned*; otherwise the expression is not accepted. -/
+
+/-- **A banned filter is in no accepted expression, at any depth.** -/
+theorem accepted_expression_has_no_banned_filter (cfg : SetCfg) (toks : List Tok) (fuel : Nat) (e : Expr) (p' : PS)
+    (h : parseExpression cfg fuel ⟨toks, toks⟩ = .ok (e, p')) :
+    ExprAll (fun name => cfg.bannedFilters.elem name = false ∧ cfg.regFilters.elem name = true ∧
+      ∃ t ∈ toks, t.typ = .ident ∧ t.val = name) e :=
+  ((allParse cfg toks (Q := fun name => cfg.bannedFilters.elem name = false ∧ cfg.regFilters.elem name = true ∧
+      ∃ t ∈ toks, t.typ = .ident ∧ t.val = name) (fun _ hx => ⟨hx.2.1, hx.1, hx.2.2⟩) fuel).parseExpression _ (Good.ofList toks) _ h).1
+
+/-- the same for a filter written with its parameter (the route of the `filter` tag and of chains) -/
+theorem accepted_filter_parameter_has_no_banned_filter (cfg : SetCfg) (toks : List Tok) (fuel : Nat) (name : Bytes)
+    (param : Expr) (pos : TokPos) (p' : PS)
+    (h : parseFilter cfg fuel ⟨toks, toks⟩ = .ok (.mk name (some param) pos, p')) :
+    ExprAll (fun name => cfg.bannedFilters.elem name = false) param :=
+  ((allParse cfg toks (Q := fun name => cfg.bannedFilters.elem name = false) (fun _ hx => hx.2.1) fuel).parseFilter _
+    (Good.ofList toks) _ h).1.2.2 param rfl
+
 /-! ### the code's lookup sites (regenerated from /repo) -/
 
 /-- every place where the code looks a tag or filter up by a name that comes
@@ -157,5 +182,15 @@ theorem gen_ban_sites_guarded : Gen.banSites.all (fun s => s.2.2) = true := by d
 /-! ### non-vacuity -/
 example : (banRun [b!"if"] [b!"upper"] {} [.banTag b!"if", .create, .banFilter b!"upper", .banTag b!"if"]).2 =
     [true, true, false, false] := by decide
+
+/-- `l[a|upper]|lower`: accepted when nothing is banned, refused when the inner `upper` is -/
+def toksNested : List Tok :=
+  [⟨.ident, b!"l", 1, 1, false, 0⟩, ⟨.sym, b!"[", 1, 2, false, 1⟩, ⟨.ident, b!"a", 1, 3, false, 2⟩, ⟨.sym, b!"|", 1, 4, false, 3⟩,
+   ⟨.ident, b!"upper", 1, 5, false, 4⟩, ⟨.sym, b!"]", 1, 10, false, 9⟩, ⟨.sym, b!"|", 1, 11, false, 10⟩, ⟨.ident, b!"lower", 1, 12, false, 11⟩]
+
+example : ∃ r, parseExpression { regTags := [], regFilters := [b!"upper", b!"lower"] } 40 ⟨toksNested, toksNested⟩ = .ok r :=
+  ⟨_, rfl⟩
+example : ∃ e, parseExpression { regTags := [], regFilters := [b!"upper", b!"lower"], bannedFilters := [b!"upper"] } 40
+    ⟨toksNested, toksNested⟩ = .error e := ⟨_, rfl⟩
 
 end Pongo.C03
